@@ -123,9 +123,9 @@ Proof. exact out_of_range_is_error_l. Qed.
 Print Assumptions out_of_range_is_error.
 
 (* ---------------------------------------------------------------- Mech against Spec *)
-(* declaration, assignment, compound assignment, argument passing, global scalar initialisers, ++/-- on
-   variables, function results, multi-dimensional element stores and nested literals of /repo behave as
-   the property demands, for every type and every value *)
+(* declaration (also with a call as initialiser and through a typedef alias), assignment, compound assignment, argument passing,
+   global scalar initialisers, ++/-- on variables, function results, multi-dimensional element stores and nested literals of
+   /repo behave as the property demands, for every type and every value *)
 Theorem checked_paths_refine_spec : forall p, In p checked_paths -> forall t v, mech_store p t v = coerce t v.
 Proof. exact checked_paths_refine_l. Qed.
 Print Assumptions checked_paths_refine_spec.
